@@ -33,6 +33,7 @@ from harness import connsim as S
 from harness import packlib as P
 
 USES_GENERATED_KERNELS = True
+USES_GENERATED_HDR = True
 RULE = ("codec: random + boundary (0/1/max of every header field, 0/1/2/254/255/256 messages, payload lengths 0/1/65535/65536) "
         "+ malformed (short, bad magic, bad type, wrong direction, bad crc, truncated/extended, tampered header or tag); "
         "packing: send/tick histories with empty payloads, hundreds of tiny messages, lengths MAX_PAYLOAD_SIZE-3..+2, "
@@ -231,6 +232,13 @@ def codec(run):
             hs.append(h)
     ie = [impl_hdr_enc(h) for h in hs]
     run.compare("hdr_codec", hs, ie, M.call_many("hdr_codec", [[h] for h in hs]))
+    # the same cases on PacketHeader.to_bytes as REGENERATED from connection.py (tools/py2v_bytes.py -> Gen/HdrKernels.v);
+    # header list = [to_server, ctime, seq, ack, type, length, count, ack_bits]; the kernel takes isServer = not to_server
+    run.compare("gen_hdr_to_bytes", hs, ie, M.call_many("gen_hdr_to_bytes", [[0 if h[0] else 1] + list(h[1:]) for h in hs]))
+    from mpgameserver.connection import PacketIdentifier, PacketType
+    run.compare("gen_hdr_consts", [[]], [[PacketIdentifier.TO_SERVER.value, PacketIdentifier.TO_CLIENT.value,
+                                          sorted(PacketType._value2name)]],
+                [[m[0], m[1], sorted(m[2])] for m in M.call_many("gen_hdr_consts", [[]])])
     run.count("hdr_enc_refused", sum(1 for x in ie if x[0] == 1))
     # ---- header decode: bytes of valid headers (both directions) + malformed
     ds = []
